@@ -142,6 +142,7 @@ func (e *Enc) call(fr *Frame, ins *ssa.Call, c *ssa.CallCommon, guard T, st *Sta
 			setRes(e.freshResults(c.Signature(), ins.Name()))
 			return
 		}
+		e.interiorCallGuard(key)
 		e.approximate("interface call " + key)
 		e.havocAll(st, key)
 		setRes(e.freshResults(c.Signature(), ins.Name()))
@@ -176,6 +177,7 @@ func (e *Enc) call(fr *Frame, ins *ssa.Call, c *ssa.CallCommon, guard T, st *Sta
 			setRes(e.freshResults(c.Signature(), ins.Name()))
 			return
 		}
+		e.interiorCallGuard("dynamic call")
 		e.approximate("dynamic call " + c.Value.Name())
 		e.havocAll(st, "dynamic call")
 		setRes(e.freshResults(c.Signature(), ins.Name()))
@@ -336,6 +338,7 @@ func (e *Enc) callStatic(fr *Frame, fn *ssa.Function, args []Val, bind []Val, gu
 		}
 		return rs
 	}
+	e.interiorCallGuard(fn.String())
 	e.approximate("call " + fn.String())
 	// an unknown callee can only change what it can reach from its arguments (by type) and globals
 	var argTypes []types.Type
@@ -475,6 +478,9 @@ func (e *Enc) mergeReturns(fr *Frame) ([]Val, *State) {
 
 // applyContract uses a callee's contract at a call site.
 func (e *Enc) applyContract(fr *Frame, ct *FuncContract, fn *ssa.Function, sig *types.Signature, name string, args []Val, guard T, st *State, pos token.Pos) []Val {
+	if !ct.Pure {
+		e.interiorCallGuard(name)
+	}
 	sc := &Scope{st: st, old: st.clone(), vars: map[string]Val{}, pkg: e.prog.typesPkg(ct.PkgPath)}
 	// bind parameter names
 	if fn != nil {
